@@ -8,6 +8,8 @@ INDICATOR_ATOMS = ["-", "- ", "?", "? ", ":", ": ", ",", "[", "]", "{", "}", "#"
                    "|", "|-", ">+", "'", "\"", "%", "%YAML", "%TAG", "@", "`", "---", "...", "\t", " ", "  ", "\n", "\r\n", "\r",
                    "\\x85", "\\u2028", "\\", "\\\n", "<<", "a", "a: b", "\0", "\ufeff", "\x07", "\ud7ff", "\U0010ffff", "\x7f", "\x85",
                    "\u2028", "\u2029", "\xa0", "\ufffe", "\uffff"]
+# white space look-alikes (str.isspace()/strip() would treat them as blanks; YAML does not)
+INDICATOR_ATOMS += ["\u2003", "\u3000", "\u1680", "\u2009", ":\xa0", "-\u2003", "k:\u3000v", "\x0b", "\x0c", "\x1c", "\x1f", "a:\x0bb", "- a\x0c"]
 INDICATOR_ATOMS += ["\u200b", "\u200c", "\u200d", "\u2060", "\u0301", "\u00ad", "\u202e", "\uff21", "a\u200bb: c", "# \u200d c"]
 INDICATOR_ATOMS = [a for a in INDICATOR_ATOMS if not a.startswith("\\x") and not a.startswith("\\u")]
 
